@@ -83,8 +83,13 @@ func decodeFormat4(in []byte, code2rune func(c int) rune) (Subtable, error) {
 				}
 				return nil, errMalformedSubtable
 			}
+			delta := idDelta[k]
 			for idx := start; idx < end; idx++ {
 				c := glyph.ID(glyphIDArray[d+int(idx-start)])
+				if c != 0 {
+					// a non-zero entry of the glyph index array is offset by idDelta
+					c += glyph.ID(delta)
+				}
 				if c != 0 {
 					cmap[uint16(code2rune(int(idx)))] = c
 				}
